@@ -1893,3 +1893,68 @@ Section Compose.
       rewrite nth_repeat_lt by (apply px_index_lt; auto). reflexivity.
   Qed.
 End Compose.
+
+Section ComposeChunk.
+  Context {C D : Type}.
+  Variables (enc : C -> D) (dec : D -> C) (d0 : C).
+  Hypothesis dec_enc : forall c, dec (enc c) = c.
+
+  Lemma put_chunk_map : forall {T U} (g : T -> U) (t0 : T) (img px : list T) xdim ydim c0 c1 o0 o1,
+      map g (put_chunk t0 img xdim ydim c0 c1 o0 o1 px) = put_chunk (g t0) (map g img) xdim ydim c0 c1 o0 o1 (map g px).
+  Proof.
+    intros. unfold put_chunk. rewrite map_map. apply map_ext. intros p.
+    destruct (cell_of ydim c0 c1 o0 o1 p); rewrite map_nth; reflexivity.
+  Qed.
+
+  Lemma get_chunk_map : forall {T U} (g : T -> U) (t0 : T) (img : list T) ydim c0 c1 o0 o1,
+      map g (get_chunk t0 img ydim c0 c1 o0 o1) = get_chunk (g t0) (map g img) ydim c0 c1 o0 o1.
+  Proof. intros. unfold get_chunk. rewrite map_map. apply map_ext. intros l. rewrite map_nth. reflexivity. Qed.
+
+  (** GRwritechunk: the caller's chunk buffer (any interlace), converted with GRIil_convert over the chunk
+      lengths and per component, lands in the cells of chunk (o0, o1) exactly as the specification says *)
+  Lemma chunk_write_refines_lemma : forall (e : list (list D)) xdim ydim nc wil c0 c1 o0 o1 (user : list C),
+      1 <= nc -> length user = c0 * c1 * nc ->
+      map (map dec) (put_chunk [] e xdim ydim c0 c1 o0 o1
+                               (chunk_px (enc d0) nc (c0 * c1) (map enc (pixbuf_of d0 wil c0 c1 nc user)))) =
+      put_chunk [] (map (map dec) e) xdim ydim c0 c1 o0 o1 (user_pixels d0 wil c0 c1 nc user).
+  Proof.
+    intros e xdim ydim nc wil c0 c1 o0 o1 user Hnc Hl.
+    rewrite (put_chunk_map (map dec) []). rewrite (write_pixels_lemma enc dec d0 dec_enc wil c0 c1 nc user Hnc Hl).
+    reflexivity.
+  Qed.
+
+  Lemma chunk_cell_lt : forall xdim ydim c0 c1 o0 o1 l,
+      chunk_inside xdim ydim c0 c1 o0 o1 = true -> l < c0 * c1 -> chunk_cell ydim c0 c1 o0 o1 l < xdim * ydim.
+  Proof.
+    intros xdim ydim c0 c1 o0 o1 l H Hl. unfold chunk_inside in H.
+    repeat (apply andb_prop in H; destruct H as [H ?]).
+    repeat match goal with H : (_ <=? _) = true |- _ => apply Nat.leb_le in H end.
+    unfold chunk_cell.
+    assert (l / c1 < c0) by (apply Nat.div_lt_upper_bound; nia).
+    assert (l mod c1 < c1) by (apply Nat.mod_upper_bound; lia).
+    assert (o0 * c0 + l / c1 + 1 <= xdim) by nia. assert (o1 * c1 + l mod c1 < ydim) by nia. nia.
+  Qed.
+
+  (** GRreadchunk: the cells of chunk (o0, o1), converted per component and to the requested interlace over the
+      chunk lengths, are the closed-form reordering of the specification's chunk *)
+  Lemma chunk_read_refines_lemma : forall (e : list (list D)) xdim ydim nc ril c0 c1 o0 o1,
+      1 <= nc -> chunk_inside xdim ydim c0 c1 o0 o1 = true -> length e = xdim * ydim ->
+      (forall px, In px e -> length px = nc) ->
+      let mem := map dec (concat (get_chunk [] e ydim c0 c1 o0 o1)) in
+      (if il_eqb ril ILpixel then mem else il_convert_walk ILpixel ril c0 c1 nc 1 mem (repeat d0 (length mem))) =
+      il_convert_spec d0 ILpixel ril c0 c1 nc 1 (concat (get_chunk [] (map (map dec) e) ydim c0 c1 o0 o1)).
+  Proof.
+    intros e xdim ydim nc ril c0 c1 o0 o1 Hnc Hin Hl Hpx mem.
+    assert (Hmem : mem = concat (get_chunk [] (map (map dec) e) ydim c0 c1 o0 o1)).
+    { subst mem. rewrite concat_map. rewrite (get_chunk_map (map dec) []). reflexivity. }
+    assert (Hu : forall x, In x (get_chunk [] e ydim c0 c1 o0 o1) -> length x = nc).
+    { intros x Hx. unfold get_chunk in Hx. apply in_map_iff in Hx. destruct Hx as [l [<- Hl']]. apply in_seq in Hl'.
+      apply Hpx. apply nth_In. rewrite Hl. apply (chunk_cell_lt xdim ydim c0 c1 o0 o1 l Hin). lia. }
+    assert (Hlen : length mem = c0 * c1 * nc * 1).
+    { subst mem. rewrite map_length, (concat_uniform_length _ nc Hu). unfold get_chunk. rewrite map_length, seq_length. lia. }
+    rewrite <- Hmem.
+    destruct (il_eqb ril ILpixel) eqn:E.
+    - apply il_eqb_eq in E. subst. symmetry. apply il_spec_same; auto.
+    - apply il_convert_correct_lemma; rewrite ?repeat_length; auto.
+  Qed.
+End ComposeChunk.
